@@ -179,7 +179,7 @@ static void vf_print_document(void) {
 
 /* ------------------------------------------------------------------ environment */
 static int vf_cur, vf_last = -1, vf_opened, vf_closed, vf_reads_after_error;
-static int vf_err_calls, vf_err_line = -2;
+static int vf_err_calls, vf_err_line = -2, vf_err_is_bool;
 static int vf_file_obj;
 static char *vf_bufp;      /* the parser's line buffer (as handed to fgets) */
 static int vf_buflen = -1; /* length of its content as predicted by the template; -1: no prediction */
@@ -221,6 +221,11 @@ static int vf_vsnprintf(char *s, size_t n, const char *fmt, va_list ap) {
         const char *path = va_arg(ap, const char *);
         (void)path;
         vf_err_line = va_arg(ap, int);
+        /* the message text is outside every claim; it is looked at only to file a refused boolean under its own tag */
+        static const char btxt[] = "%dth argument of '%s' must be b";
+        bool isb = true;
+        for (int i = 0; i < (int)sizeof(btxt) - 1; i++) if (isb && fmt[6 + i] != btxt[i]) isb = false;
+        vf_err_is_bool = isb;
 #ifdef VF_CUT
         vf_at_error();
 #endif
@@ -286,6 +291,17 @@ static size_t vf_strlen(const char *s) {
  * and content: both are asserted first, then the copy is built from the prediction, which keeps the
  * object size and the position of every syntax byte constant for the symbolic execution
  * (assert-then-use: no behaviour is excluded as long as the assertion holds) */
+static char *vf_linecopy(const char *s, size_t n, int line, int off, int want) {
+    bool same = want >= 0 && n == (size_t)want;
+    for (int i = 0; i < want; i++) same = same && s[i] == vf_lines[line][off + i];
+    VF_ASSERT(same, FP "env.linecopy: the line copy is the trimmed line without its brackets, as the template predicts");
+    VF_ASSUME(same);
+    char *p = (char *)malloc((size_t)want + 1);      /* exactly sized */
+    VF_ASSUME(p != NULL);
+    for (int i = 0; i < want; i++) p[i] = vf_lines[line][off + i];
+    p[want] = 0;
+    return p;
+}
 static int vf_ndup;
 static char *vf_strdup(const char *s) {
     size_t n = 0;
@@ -299,17 +315,10 @@ static char *vf_strdup(const char *s) {
         for (size_t i = 0; i <= n; i++) p[i] = s[i];
         return p;
     }
-    int off = vf_geo[line][0] + vf_geo[line][2], want = vf_geo[line][3];
-    if (vf_geo[line][4] >= 0 && n == (size_t)vf_geo[line][4]) want = vf_geo[line][4];
-    bool same = want >= 0 && n == (size_t)want;
-    for (int i = 0; i < want; i++) same = same && s[i] == vf_lines[line][off + i];
-    VF_ASSERT(same, FP "env.linecopy: the line copy is the trimmed line without its brackets, as the template predicts");
-    VF_ASSUME(same);
-    char *p = (char *)malloc((size_t)want + 1);      /* exactly sized */
-    VF_ASSUME(p != NULL);
-    for (int i = 0; i < want; i++) p[i] = vf_lines[line][off + i];
-    p[want] = 0;
-    return p;
+    int off = vf_geo[line][0] + vf_geo[line][2];
+    /* (two separate calls: each allocation has a constant size) */
+    if (vf_geo[line][4] >= 0 && n == (size_t)vf_geo[line][4]) return vf_linecopy(s, n, line, off, vf_geo[line][4]);
+    return vf_linecopy(s, n, line, off, vf_geo[line][3]);
 }
 #undef strdup
 #define strdup vf_strdup
@@ -521,8 +530,8 @@ static void vf_check_data(qaconf_cbdata_t *d, int l) {
     VF_ASSERT(vf_str_is(d->argv[0], x_word[l][0], x_wlen[l][0]), FP "cb.name: argv[0] is the directive name as written");
     for (int j = 1; j < VF_MAXWORDS; j++) {
         if (j >= x_nwords[l] || j >= d->argc) continue;
-        if (e_bool[l][j] == 1) VF_ASSERT(d->argv[j][0] == '1' && d->argv[j][1] == 0, FP "cb.bool.true: a true spelling reaches the callback as \"1\"");
-        else if (e_bool[l][j] == 0) VF_ASSERT(d->argv[j][0] == '0' && d->argv[j][1] == 0, FP "cb.bool.false: a false spelling reaches the callback as \"0\"");
+        if (e_bool[l][j] == 1) { VF_ASSERT(d->argv[j][0] == '1' && d->argv[j][1] == 0, FP "cb.bool.true: a true spelling reaches the callback as \"1\""); VF_COVER("bool-true"); }
+        else if (e_bool[l][j] == 0) { VF_ASSERT(d->argv[j][0] == '0' && d->argv[j][1] == 0, FP "cb.bool.false: a false spelling reaches the callback as \"0\""); VF_COVER("bool-false"); }
         else VF_ASSERT(vf_str_is(d->argv[j], x_word[l][j], x_wlen[l][j]), FP "cb.arg: argument split, unquoted and unescaped by the documented rules");
     }
     VF_ASSERT(d->level == e_depth[l], FP "cb.level: level = number of enclosing sections");
@@ -550,14 +559,18 @@ static char *vf_cb_common(qaconf_cbdata_t *data, void *userdata, bool viadef) {
             VF_ASSERT((int)data->otype == (vf_kind[l] == K_OPT ? QAC_OTYPE_OPTION : vf_kind[l] == K_OPEN ? QAC_OTYPE_SECTIONOPEN : QAC_OTYPE_SECTIONCLOSE),
                       FP "defcb.otype: default handler sees the directive type");
             VF_ASSERT(vf_str_is(data->argv[0], x_word[l][0], x_wlen[l][0]), FP "defcb.name: default handler sees the directive name");
+            VF_COVER("defcb-unregistered");
         } else if (e_action[l] == A_CB) {
             if (vf_kind[l] == K_CLOSE) {
                 VF_ASSERT(data->otype == QAC_OTYPE_SECTIONCLOSE, FP "cb.otype.close: closing callback has otype SECTIONCLOSE");
                 for (int m = 0; m < VF_NLINES; m++) if (e_opener[l] == m) vf_check_data(data, m);   /* the opening directive's data */
+                VF_COVER("cb-close");
             } else {
                 VF_ASSERT((int)data->otype == (vf_kind[l] == K_OPT ? QAC_OTYPE_OPTION : QAC_OTYPE_SECTIONOPEN), FP "cb.otype: option / section-open type");
                 vf_check_data(data, l);
+                if (vf_kind[l] == K_OPEN) { VF_COVER("cb-open"); } else { VF_COVER("cb-option"); }
                 if (e_opener[l] >= 0 && data->parent != NULL) {
+                    VF_COVER("cb-nested");
                     /* parent chain: the enclosing section's opening data, still typed as an open section */
                     qaconf_cbdata_t *p = data->parent;
                     VF_ASSERT(p->otype == QAC_OTYPE_SECTIONOPEN, FP "cb.parent.otype: parent is the enclosing section's opening directive");
@@ -591,7 +604,7 @@ static void vf_verdict(int r) {
     bool e_ok = e_reject_line < 0;
     bool fb_rejected = false;
     for (int l = 0; l < VF_NLINES; l++)
-        if (e_fb_line == l && r == -1 && vf_err_line == l + 1 && r_called[l] == 0 && r_defcalled[l] == 0) fb_rejected = true;
+        if (e_fb_line == l && r == -1 && vf_err_line == l + 1 && vf_err_is_bool && r_called[l] == 0 && r_defcalled[l] == 0) fb_rejected = true;
     if (fb_rejected) {
         /* the line satisfies every declaration, its callback (if any) never ran, yet it was refused */
         VF_ASSERT(0, FP "bool.false: a BOOL argument spelled Off/No/False/0 (any case) satisfies the declaration and is delivered as \"0\"");
